@@ -66,6 +66,11 @@ def reportLine (w : World) : String :=
   let parts := parts ++ [s!"G:{showInts reg}:{reg.length}"]
   let pend := (List.range w.reqs.size).filter fun i => !(w.reqs.getD i default).done
   let parts := parts ++ [s!"P:{showInts pend}"]
+  -- the hypothesis of `c12_discard_closes_partial`, evaluated in every world the correspondence visits:
+  -- a registered session has a current transport, not closed, and is past `opening` (the harness never prints this token)
+  let linkBad := w.registry.filter fun sid =>
+    !(decide ((w.sock sid).tr < w.trs.size) && decide ((w.tr (w.sock sid).tr).rs ≠ .closed) && decide ((w.sock sid).rs ≠ .opening))
+  let parts := if linkBad.isEmpty then parts else parts ++ [s!"LINK!:{showInts linkBad}"]
   " ".intercalate parts
 
 /-- the harness's canonical order for the events of a server shutdown -/
